@@ -28,6 +28,8 @@
 (*        inside the spawn loop an old-generation worker survives the      *)
 (*        reload.  Intended design: every worker older than the reload is  *)
 (*        retired.                                                         *)
+(*   "ReapOnlyOne"      (mutation candidate) the handler reaps one child   *)
+(*        per SIGCHLD although the signal is not queued: zombies stay.     *)
 (*   "HaltEscapes"      HaltServer raised by the handler while halt()/     *)
 (*        stop() is already running escapes run() (exit status 1, pid file *)
 (*        left behind).                                                    *)
@@ -234,7 +236,7 @@ Exit ==                                       \* sys.exit(exit_status)
 (***************************************************************************)
 Chld ==
   /\ chld /\ Running
-  /\ LET Z == Zomb
+  /\ LET Z == IF "ReapOnlyOne" \in Dev /\ Zomb # {} THEN {Min(Zomb)} ELSE Zomb   \* deviation: one waitpid() per SIGCHLD
          B == {z \in Z : xs[z] \in {"b3", "b4"}}
          ignore == m.inhalt /\ "HaltEscapes" \notin Dev      \* intended design: halting goes on
          raise == B # {} /\ ~ignore
